@@ -26,7 +26,13 @@ KDCsOK(x) == \A i \in 1..Len(x.got.kdcs) : LET k == x.got.kdcs[i]  er == ExpReal
 ConfOK(x) == /\ x.panic = ""
              /\ IF Valid(x.model) THEN ~x.err /\ LibOK(x) /\ RealmsOK(x) /\ DomainsOK(x) /\ KDCsOK(x) /\ x.got.unchanged
                 ELSE x.err
-LineOK(x) == IF x.ev = "resolve" THEN ResolveOK(x) ELSE ConfOK(x)
+\* ---- RealmResolve against MIT Kerberos' krb5_get_host_realm on the same configurations (validates the specification, not gokrb5).
+\* MIT's implementation also takes a key written WITHOUT the leading period for a domain when it is a proper suffix of the host name
+\* (its documentation says domains carry the period; gokrb5 and this specification follow the documentation): those cases are not compared
+HostKeySuffix(x) == \E i \in 1..Len(x.d) : x.d[i][1] = "host" /\ x.d[i][2] \in RR!ProperSuffixes(x.h)
+MITResolveOK(x) == LET r == RR!Resolve(x.h, {x.d[i] : i \in 1..Len(x.d)}) IN
+                   x.rc = 0 /\ (HostKeySuffix(x) \/ x.mit = (IF r = <<"none">> THEN "" ELSE "R" \o ToString(KeyIdx(x, r))))
+LineOK(x) == CASE x.ev = "resolve" -> ResolveOK(x) [] x.ev = "mitresolve" -> MITResolveOK(x) [] OTHER -> ConfOK(x)
 Init == LT!Init
 Next == LT!Next
 Check == ~LT!Active \/ LineOK(Tr[l]) \/ PrintT(<<"BADLINE", l>>)
